@@ -26,6 +26,9 @@ def call_op(op, has_t, d, polys, pt, nus):
             # as many components as space dimensions: the optional component count may be left unset
             return [float(v) for v in np.asarray(jinns.loss._vectorial_laplacian(t, x, u, P)).ravel()]
         return [float(v) for v in np.asarray(jinns.loss._vectorial_laplacian(t, x, u, P, u_vec_ndim=len(polys))).ravel()]
+    if op == "advection" and (has_t or int(abs(pt[0]) * 4) % 2 == 0):
+        # the operator itself (the library only reaches it without a time argument)
+        return [float(v) for v in np.asarray(jinns.loss._operators._u_dot_nabla_times_u_rev(t, x, u, P)).ravel()]
     # advection through the Navier-Stokes residual with p = 0, rho = 1, nu = 0
     p = mk([{(0,) * d: 0}], "statio_PDE")
     ns = jinns.loss.NavierStokes2DStatio(u_key="u", p_key="p")
@@ -68,7 +71,7 @@ def gen_cfgs(tier, rng):
     nrand = 40 if tier == "quick" else 300
     for _ in range(nrand):
         op = rng.choice(OPS)
-        has_t = rng.random() < 0.5 and op != "advection"
+        has_t = rng.random() < 0.5
         d = 2 if op == "advection" else rng.randint(1, 4)
         nv = d + (1 if has_t else 0)
         nout = {"laplacian": 1, "divergence": d, "vector_laplacian": rng.randint(1, 3), "advection": 2}[op]
@@ -153,7 +156,7 @@ def generate(tier, seed, casedir, variant):
     write_cases(casedir, "C01fwdsys", "R_C11", variant, fcases, chunk=60)
     cases = cases + fcases
     return dict(meta=meta, oracle_violations=viol, evaluations=len(cases), distinct_nontrivial=len(nontrivial), samples=samples, distribution=dist,
-                rule="monomial basis of total degree <= 3 in d = 1..4 spatial variables with and without time (all of it in the thorough tier) for the Laplacian and the divergence, plus random integer polynomials of degree <= 4 for the four operators (scalar and vector outputs, extra unrelated parameters present), at dyadic points; non-trivial = the operator value is non-zero; plus a trig+quadratic+Gaussian family with closed-form Laplacian (oracle only); plus the forward-mode Laplacian / divergence on random separable networks (1..3 space dimensions, with and without time, 1 / 2 / 3 points per axis)",
+                rule="monomial basis of total degree <= 3 in d = 1..4 spatial variables with and without time (all of it in the thorough tier) for the Laplacian and the divergence, plus random integer polynomials of degree <= 4 for the four operators (scalar and vector outputs, extra unrelated parameters present; the advection operator called directly, with and without a time argument, and through the Navier-Stokes residual), at dyadic points; non-trivial = the operator value is non-zero; plus a trig+quadratic+Gaussian family with closed-form Laplacian (oracle only); plus the forward-mode Laplacian / divergence on random separable networks (1..3 space dimensions, with and without time, 1 / 2 / 3 points per axis)",
                 oracle_checks=len(cases) + (10 if tier == "quick" else 80), exhaustive=False)
 
 
